@@ -57,9 +57,9 @@ fn main() {
                 }
             }
         }
-        "codec" | "ops" | "spec" | "algo" => {
-            let salt: u64 = match cmd { "codec" => 0xC0DEC, "ops" => 0x0B5, "algo" => 0xA160, _ => 0x59EC };
-            let genf: fn(&mut Rng, bool) -> serde_json::Value = match cmd { "codec" => cvh::codec::gen_case, "ops" => cvh::ops::gen_case, "algo" => cvh::ops::gen_algo_case, _ => cvh::specgen::gen_case };
+        "codec" | "ops" | "spec" | "algo" | "pop" => {
+            let salt: u64 = match cmd { "codec" => 0xC0DEC, "ops" => 0x0B5, "algo" => 0xA160, "pop" => 0x909, _ => 0x59EC };
+            let genf: fn(&mut Rng, bool) -> serde_json::Value = match cmd { "codec" => cvh::codec::gen_case, "ops" => cvh::ops::gen_case, "algo" => cvh::ops::gen_algo_case, "pop" => cvh::pop::gen_case, _ => cvh::specgen::gen_case };
             std::panic::set_hook(Box::new(|_| {}));
             if let Some(p) = arg(&args, "--replay") {
                 // replay: lines carry their generator coordinates
